@@ -29,6 +29,68 @@ def _watchdog(prop, secs):
     signal.alarm(secs)
 
 
+def _enc(x):
+    if isinstance(x, (bytes, bytearray)):
+        return {"__b": bytes(x).hex()}
+    if isinstance(x, (list, tuple)):
+        return [_enc(v) for v in x]
+    if isinstance(x, dict):
+        return {"__d": [[_enc(k), _enc(v)] for k, v in x.items()]}
+    if isinstance(x, (int, float, str, bool)) or x is None:
+        return x
+    raise TypeError(type(x).__name__)
+
+
+def _dec(x):
+    if isinstance(x, dict):
+        if "__b" in x:
+            return bytes.fromhex(x["__b"])
+        return {_dec(k): _dec(v) for k, v in x["__d"]}
+    if isinstance(x, list):
+        return [_dec(v) for v in x]
+    return x
+
+
+def cold_start_permutations(prop, tier, recorded, ctx):
+    """The first case of every kind again, each ordering in a *fresh interpreter*: state that is set up lazily by whichever
+    public function happens to run first (a table built on first use, a default captured at first call) must not matter."""
+    first = {}
+    for gname, a, k in recorded:
+        if gname not in first:
+            try:
+                first[gname] = [gname, _enc(a), _enc(k)]
+            except TypeError:
+                continue
+    cases = list(first.values())[:12]
+    if len(cases) < 2:
+        return
+    orders = [list(reversed(cases)), cases[len(cases) // 2:] + cases[:len(cases) // 2]]
+    tmp = tempfile.mkdtemp(prefix=f"spv-cold-{prop}-")
+    try:
+        for i, order in enumerate(orders):
+            cf, of = os.path.join(tmp, f"c{i}.json"), os.path.join(tmp, f"o{i}.json")
+            with open(cf, "w") as f:
+                json.dump(order, f)
+            try:
+                p = subprocess.run([sys.executable, "-X", "dev", "-W", "ignore", "-m", "spverif", prop, tier, "--cases", cf, "--out", of],
+                                   capture_output=True, text=True, cwd=VERIF_ROOT, timeout=900)
+            except subprocess.TimeoutExpired:
+                ctx.inconc("cold-start permutation timed out")
+                continue
+            if p.returncode != 0 or not os.path.exists(of):
+                ctx.inconc(f"cold-start permutation {i} exited {p.returncode}: {(p.stdout + p.stderr)[-400:]!r}")
+                continue
+            with open(of) as f:
+                part = json.load(f)
+            part["extra"] = {}
+            part["inconclusive"] = []
+            ctx.merge(part)
+            ctx.extra["cold_start_processes"] = ctx.extra.get("cold_start_processes", 0) + 1
+            ctx.extra["cold_start_cases"] = ctx.extra.get("cold_start_cases", 0) + len(order)
+    finally:
+        shutil.rmtree(tmp, ignore_errors=True)
+
+
 def anchored_files(prop):
     try:
         for line in open(os.path.join(VERIF_ROOT, "properties.jsonl")):
@@ -60,6 +122,7 @@ def run_in_process(mod, ctx: Ctx):
     # values have passed through the code under test (a cache that has filled up and recycles its slots, a table that grew,
     # a counter that wrapped show only when an *early* input comes back).
     recorded = []
+    named = []
     originals = {}
     kinds = getattr(mod, "KINDS", {})
     per_kind = {}
@@ -71,6 +134,7 @@ def run_in_process(mod, ctx: Ctx):
                     if n < getattr(mod, "REVISIT_PER_KIND", 25) and c is ctx:
                         per_kind[kname] = n + 1
                         recorded.append((fn, a, k))
+                        named.append((kname, a, k))
                     return fn(c, *a, **k)
                 rec.__wrapped__ = fn
                 return rec
@@ -83,6 +147,8 @@ def run_in_process(mod, ctx: Ctx):
         for fn, a, k in recorded:
             fn(ctx, *a, **k)
         ctx.extra["revisited_early_cases"] = len(recorded)
+        if ctx.shard[0] == 0 and os.environ.get("SPV_NO_COLD") != "1":
+            cold_start_permutations(ctx.prop, ctx.tier, named, ctx)
     except Exception as e:  # noqa: BLE001
         # A step the workload expected to succeed raised.  If the exception was raised by the code under test it is a
         # violation witness (the workload only performs operations the property says are valid); if it comes from the
@@ -117,6 +183,7 @@ def main(argv=None) -> int:
     ap.add_argument("--shard")
     ap.add_argument("--out")
     ap.add_argument("--shards", type=int)
+    ap.add_argument("--cases", help="internal: execute the listed (function, args) cases in this fresh process and write a partial result")
     a = ap.parse_args(argv)
     prop = a.prop.upper()
     seed = int(os.environ.get("VERIF_SEED", "0") or 0)
@@ -168,6 +235,21 @@ def main(argv=None) -> int:
             return 0
         finally:
             shutil.rmtree(tmp, ignore_errors=True)
+
+    if a.cases:
+        _watchdog(prop, 600)
+        ctx = Ctx(prop, a.tier, seed)
+        if getattr(mod, "SCRIBBLE", False):
+            from spverif.san import scribble
+            scribble.install()
+        with open(a.cases) as f:
+            cases = json.load(f)
+        for gname, args, kw in cases:
+            getattr(mod, gname)(ctx, *_dec(args), **_dec(kw))
+        ctx.extra = {}
+        with open(a.out, "w") as f:
+            json.dump(ctx.partial(), f)
+        return 0
 
     if a.shard:
         i, n = map(int, a.shard.split("/"))
